@@ -240,6 +240,10 @@ class Interp(object):
                 return
             if region[0] == 'row':
                 raise Unknown('table row read with a constant index')
+            if region == ('global', 'of_verbosity'):
+                # trace level: only controls print regions (R-VERBOSITY); the kernels are analysed with tracing off
+                self.env[i.id] = ('int', 0, 8 * n)
+                return
             if region[0] == 'arg' and self.fn.params[region[1]]['ty'] == 'i32*':
                 self.env[i.id] = ('opaque',)
                 return
